@@ -257,8 +257,24 @@ def r2_templates(ctx, chk, rule="C17.2"):
             name_term = wr2[0][2][2][0]
             env = sx2.final.env
 
+            wr_f = ctx.func("roberta_generator.py::write_robots")
+            wr_args = dict(zip(wr_f.params, wr2[0][2][2]))
+            wr_args.update({k: v for k, v in wr2[0][2][3] if k})
+
             def src_of(p):
-                return env.get(p, ("v", p))
+                # by meaning, not by the name of a local: the board dimensions are what write_robots receives as length / width,
+                # the maximum reward is the local computed from the rewards table
+                if p in env:
+                    return env[p]
+                if p in ("length", "width") and p in wr_args:
+                    return wr_args[p]
+                if p == "max_reward":
+                    rp = [q for q in f2.params if "reward" in q]
+                    for v in env.values():
+                        if isinstance(v, tuple) and rp and any(t == ("v", rp[0]) for t in C08_sub(v)) and v != ("v", rp[0]) \
+                                and any(t[0] == "call" and t[1] in ("get_max_from_matrix", "max") for t in C08_sub(v)):
+                            return v
+                return ("v", p)
 
             def tail2(rest):
                 if len(rest) == 3 and rest[0] == ("lit", "_") and rest[1][0] == "hole" and rest[2] == ("lit", ".py"):
